@@ -104,7 +104,9 @@ class LazyRng(struct.PyTreeNode):
       return LazyRng(rng, suffix)
 
   def clear_suffix(self):
-    key = self.rng
+    # fold the static data into the key before dropping it: scopes that differ
+    # only in their suffix (e.g. sibling modules) must not end up with one key
+    key = self.as_jax_rng()
     return LazyRng(key, ())
 
 
